@@ -27,8 +27,23 @@ def enumerated(ctx, maxlen, sample3=None):
         rot = (h >> 1) % 3
         flags = [bool((h >> (3 + i)) & 1) for i in range(n)]
         use_entry = bool((h >> 12) & 1)
-        label = "cycle %s %s%s%s" % ('>'.join(kinds), ','.join(p[0] for p in places), ' via' if via else '', ' use-entry' if use_entry else '')
-        out.append((label, G.cycle_doc(kinds, places, rot, via, flags, use_entry)))
+        wrappers = [G.WRAPPERS[(h >> (13 + 3 * i)) % len(G.WRAPPERS)] if (h >> 26) & 1 else '' for i in range(n)]
+        extra_child = bool((h >> 27) & 1)
+        entries = 1 + (h >> 28) % 3
+        label = "cycle %s %s%s%s%s%s x%d" % ('>'.join(kinds), ','.join(p[0] for p in places), ' via' if via else '', ' use-entry' if use_entry else '',
+                                          ' wrap=' + '/'.join(w or '-' for w in wrappers) if any(wrappers) else '', ' +child' if extra_child else '', entries)
+        d = G.cycle_doc(kinds, places, rot, via, flags, use_entry, wrappers, extra_child, entries)
+        d.nomodel = any(x.tag == 'switch' for x in d.walk())        # switch::convert is not modelled: e2e only
+        out.append((label, d))
+    # re-entry family: every single-kind 3-cycle entered by three plain shapes in sequence (the caches are filled by the
+    # first entry), all definitions with objectBoundingBox units (converted again for every user) or all with
+    # userSpaceOnUse units (cached), links on the elements or on children, every definition with an extra valid child
+    for kind in G.KINDS:
+        for place in G.PLACES:
+            for flag in (False, True):
+                for via in (False, True):
+                    label = "cycle %s %s re-entry %s%s x3" % ('>'.join([kind] * 3), ','.join([place[0]] * 3), 'usou' if flag else 'obb', ' via' if via else '')
+                    out.append((label, G.cycle_doc([kind] * 3, [place] * 3, 0, via, [flag] * 3, False, None, True, 3)))
     return out
 
 
@@ -201,7 +216,7 @@ def run(ctx):
     ctx.add_sample(dict(op='c03-e2e', label=docs[-4][0], doc=docs[-4][2]))
 
     # ------------------------------------------------------------------ K: prepass + names correspondence, model verdicts
-    sel = [i for i, (_, d, _) in enumerate(docs) if d is not None and not isinstance(d, str)]
+    sel = [i for i, (_, d, _) in enumerate(docs) if d is not None and not isinstance(d, str) and not getattr(d, 'nomodel', False)]
     touts = ctx.rvh_batch(binp, 'c03-svgtree', [items[i] for i in sel], per_item_timeout=4, chunk=40)
     pre_items, nm_items, vd_items, usable = [], [], [], []
     for i, o in zip(sel, touts):
